@@ -1,8 +1,8 @@
 from props import sched_common
 
 THEOREMS = ["Dispenso.Sched." + t for t in ['C08_accounting', 'C08_queue_bookkeeping', 'C08_quiescent_zero', 'C08_quiesce_event', 'C08_resize_end_settled']]
-# (flavour, scenarios in the quick tier): 0 mixed, 1 without resize, 2 resize-heavy, 3 overloaded pool + chains
-FLAVOURS = [(2, 200), (0, 150), (1, 50)]
+# (flavour, scenarios in the quick tier): 0 mixed, 1 without resize, 2 resize-heavy, 3 overloaded pool + chains, 4 workers parked between submissions
+FLAVOURS = [(2, 160), (0, 120), (1, 40), (4, 80)]
 
 
 def run(ctx, replay):
